@@ -187,6 +187,45 @@ def run(tree, tier):
             "viol_ii_known": viol_ii_known, "samples": samples, "wall": time.time() - t0}
 
 
+def frame_check(tree):
+    """frame clause of get_minimal_hops_to_goal / Network.get_minimal_hops (assumed at call sites: "reads its arguments
+    only"): neither the topology nor the list of sensitive addresses - which the network shares with the goal test - is
+    modified by the call.  Run-time contract on the real code (bounded: the instances below)."""
+    import copy
+    f = _import(tree)
+    bad = []
+    n = 0
+    for name, topo, S in structured("quick")[:9] + [("t3", t, (1, 2)) for t in list(topologies(3))[-2:]]:
+        sens = [(s, 0) for s in S]
+        t0, s0 = copy.deepcopy(topo), copy.deepcopy(sens)
+        try:
+            f(topo, sens)
+        except Exception as e:      # noqa
+            bad.append({"family": name, "what": f"raised {type(e).__name__}"})
+            continue
+        n += 1
+        if topo != t0 or sens != s0:
+            bad.append({"family": name, "topology": t0, "sensitive": s0, "what": "argument modified by the call",
+                        "after": {"topology": topo, "sensitive": sens}})
+    # through the public API of a real environment: asking for the hop count / score bound must not change the goal
+    import nasim
+    import numpy as np
+    for bench in ("tiny", "small"):
+        env = nasim.make_benchmark(bench, seed=0)
+        before = copy.deepcopy(list(env.network.sensitive_addresses))
+        topo0 = np.array(env.network.topology).tolist()
+        env.reset()
+        g0 = bool(env.goal_reached())
+        env.get_minimum_hops() if hasattr(env, "get_minimum_hops") else env.network.get_minimal_hops()
+        env.get_score_upper_bound()
+        n += 1
+        if list(env.network.sensitive_addresses) != before or np.array(env.network.topology).tolist() != topo0 \
+           or bool(env.goal_reached()) != g0:
+            bad.append({"family": "api:" + bench, "what": "hop / score-bound query changed the network's goal or topology",
+                        "sensitive_before": before, "sensitive_after": list(env.network.sensitive_addresses)})
+    return {"calls": n, "bad": bad}
+
+
 def witness(tree):
     """known finding witness: star with three sensitive leaves (DESIGN 6)"""
     f = _import(tree)
